@@ -549,7 +549,7 @@ theorem not_listed {d : Disk} (inv : Inv d) {p nm ty : Bytes} (a : RootArg p) (h
     have hin := inMap_of_shown hsh
     have hmemE : e ∈ dirOfBytes (rootBuf d) := by rw [hE]; simp
     obtain ⟨_, hgood⟩ := shown_of_inMap inv.root hmemE hsh.1.2 hin
-    obtain ⟨nm', ty', n1, n2, n3, n4, n5⟩ := hgood
+    obtain ⟨nm', ty', n1, n2, n3, n4, n5, _, _⟩ := hgood
     obtain ⟨nm'', ty'', m1, m2⟩ := buildLoop_complete false _ 0 0 [] files hb E1 e E2 hE (fun x hx => type_of_live (hE1 x hx)) hin
     rw [n1] at m1
     injection m1 with m1
